@@ -72,15 +72,23 @@ def members():
         out.append((f"items_{mn}_{mx}", sch, [[1] * n for n in range(0, 4)]))
     out.append(("array_of_bounded_strings", {"type": "array", "items": {"type": "string", "maxLength": 3}}, [[], ["abc"], ["abcd"], ["ab", "abcde"]]))
     out.append(("array_of_bounded_ints", {"type": "array", "maxItems": 3, "items": {"type": "integer", "minimum": 1, "maximum": 5}}, [[1, 5], [0], [3, 6], [1, 2, 3, 4]]))
+    # formats combined with length / pattern: every probe is a well-formed address / URL, only the other constraints vary
+    out.append(("email_len_pat", {"type": "string", "format": "email", "minLength": 8, "maxLength": 20, "pattern": "@example\\.com$"},
+                ["a@b.co", "ab@example.com", "x@example.com", "averyveryverylong@example.com", "someone@other.org"]))
+    out.append(("uri_len_pat", {"type": "string", "format": "uri", "maxLength": 24, "pattern": "^https://"},
+                ["https://example.com/x", "http://example.com/x", "https://example.com/a/very/long/path"]))
+    out.append(("url_len", {"type": "string", "format": "url", "minLength": 20}, ["https://example.com/x", "https://a.io"]))
     out.append(("email", {"type": "string", "format": "email"}, ["a@b.co", "not-an-email"]))
     out.append(("uri", {"type": "string", "format": "uri"}, ["https://example.com/x", "not a url"]))
     return out
 
 
-FORMAT_VERDICT = {"a@b.co": True, "not-an-email": False, "https://example.com/x": True, "not a url": False}
+FORMAT_VERDICT = {"a@b.co": True, "not-an-email": False, "https://example.com/x": True, "not a url": False,
+                  "ab@example.com": True, "x@example.com": True, "averyveryverylong@example.com": True, "someone@other.org": True,
+                  "http://example.com/x": True, "https://example.com/a/very/long/path": True, "https://a.io": True}
 
 # how the member under test is reached from the top-level request type
-PLACEMENTS = ["direct", "direct_required", "in_member", "in_optional_member", "in_array_items", "in_boxed_recursive", "two_levels"]
+PLACEMENTS = ["direct", "direct_required", "in_member", "in_optional_member", "in_array_items", "in_boxed_recursive", "two_levels", "outer_first"]
 
 
 def build_spec(msch, placement):
@@ -112,6 +120,12 @@ def build_spec(msch, placement):
         schemas["Mid"] = {"type": "object", "properties": {"inner": {"$ref": "#/components/schemas/Inner"}, "k": {"type": "integer"}}}
         schemas["Top"] = {"type": "object", "properties": {"mid": {"$ref": "#/components/schemas/Mid"}}}
         path = ["mid", "inner", "m"]
+    elif placement == "outer_first":
+        # type names sort outer-to-inner (Top < Umid < Vleaf): the nested-validation fix point needs a second pass
+        schemas["Vleaf"] = inner
+        schemas["Umid"] = {"type": "object", "properties": {"leaf": {"$ref": "#/components/schemas/Vleaf"}}}
+        schemas["Top"] = {"type": "object", "properties": {"mid": {"$ref": "#/components/schemas/Umid"}}}
+        path = ["mid", "leaf", "m"]
     spec = {"openapi": "3.1.0", "info": {"title": "t", "version": "1"}, "paths": {}, "components": {"schemas": schemas}}
     return spec, path
 
@@ -131,7 +145,7 @@ def main(tier, seed, replay=None):
     mem = members()
     cases = []
     for (key, msch, vals) in mem:
-        pls = PLACEMENTS if tier != "quick" else ["direct", "direct_required"] + rng.sample(PLACEMENTS[2:], 2)
+        pls = PLACEMENTS if tier != "quick" else ["direct", "direct_required", "outer_first"] + rng.sample(PLACEMENTS[2:7], 2)
         for pl in pls:
             cases.append({"member": key, "schema": msch, "values": vals, "placement": pl})
     if replay:
@@ -207,8 +221,8 @@ def main(tier, seed, replay=None):
                     viol.append((c, f"{c['member']}@{c['placement']}: no observation for value {v!r} (rc={rc} {se[-120:]})", None))
                     continue
                 n_probe += 1
-                if "format" in c["schema"] and c["schema"]["format"] in ("email", "uri"):
-                    want = FORMAT_VERDICT[v]
+                if "format" in c["schema"] and c["schema"]["format"] in ("email", "uri", "url"):
+                    want = FORMAT_VERDICT[v] and want_of[(i, k)]
                 else:
                     want = want_of[(i, k)]
                 if o.startswith("D"):
